@@ -128,7 +128,15 @@ def classify(unit: Unit, vr):
             continue
         if lvl == "error" and msg.startswith("aborting due to"):
             continue
-        spans = d.get("spans", [])
+        spans = []
+        for s_ in d.get("spans", []):
+            # a span inside a macro expansion (panic!, unimplemented!, vec!): use the call site in the generated file
+            t_ = s_
+            while t_.get("expansion") and t_["expansion"].get("span"):
+                t_ = t_["expansion"]["span"]
+            if t_ is not s_:
+                s_ = dict(s_); s_["line_start"] = t_.get("line_start", s_.get("line_start")); s_["text"] = t_.get("text", s_.get("text"))
+            spans.append(s_)
         prim = [s for s in spans if s.get("is_primary")]
         low = msg.lower()
         if any(u in low for u in UNDECIDED_MSGS):
